@@ -19,6 +19,11 @@ CLAIMED = {
    note="Trusted: Coq kernel (vm_compute for the bundled side conditions), translator (tld_data.py -> Gen/Psl.v as UTF-8 literals), extraction, driver, harness. The `private` flag is not modelled (no observable effect). idna codec as oracle table. Several simultaneously matching exception rules (absent from any PSL) resolve to the shortest, in spec and code alike.",
    technique="Coq proof: trie walk = PSL algorithm (induction over rules and labels) + computed side conditions on the regenerated list + differential correspondence",
    ref="6 C08"),
+ "C14": dict(
+   text="Proved in Coq for all strings (closed under the global context): safely_quote returns pure ASCII whose tokenisation is exactly the input's with every escape kept and every other character escaped unless unreserved or '/', hence decodes to the same bytes, and is idempotent; upper_quoted changes only the case of hex digits inside valid escapes (same bytes, idempotent); tokenisation is a bijection on well-formed token lists; the unsafe sets read from the source contain every delimiter / '%' / space the component requires (computed side condition, breaks when a table entry is dropped); the generated regex ASTs the model reads abstractly are pinned structurally. PARTIAL for the four safely_unquote_*: the property formula (decider `unquote_ok` of Spec/C14.v: output re-tokenises into kept escapes and once-decoded characters, no delimiter / space / control created, same bytes) plus idempotence is evaluated, extracted, on the implementation's output for every string of <= 2 (quick) / 3 (thorough) tokens over the property's 42-token alphabet and random longer ones, and the faithful model is compared with the implementation on the same inputs; its for-all-strings proof is not finished.",
+   note="Trusted: Coq kernel, translator, extraction, driver, harness. ASCII_RE / QUOTED_SPLIT_RE / QUOTED_RE / LOWERCASE_QUOTED_RE enter the model through their reading as maximal ASCII runs / valid-escape tokens (pinned by reflexivity lemmas on the generated ASTs and exercised by the regex correspondence). Lone surrogates are outside str scope (quote() raises on them).",
+   technique="Coq proofs on a token model of percent-escapes + extracted property deciders run on implementation outputs + differential correspondence",
+   ref="6 C14"),
 }
 
 NOT_YET = {}
